@@ -282,6 +282,26 @@ func (r *rewriter) hooks(fd *ast.FuncDecl) {
 				}
 			}
 		}
+		// onStateChange runs with the per-process state lock held; the name stored in the
+		// state object is guarded by that very lock, so reading it neither races nor adds a
+		// scheduling point between the decision and the record of it
+		if obj := r.pkg.Types.Scope().Lookup("Process"); obj != nil {
+			if st, ok := obj.Type().Underlying().(*types.Struct); ok {
+				for i := 0; i < st.NumFields(); i++ {
+					if st.Field(i).Name() == "procState" {
+						if pt, ok := st.Field(i).Type().(*types.Pointer); ok {
+							if ps, ok := pt.Elem().Underlying().(*types.Struct); ok {
+								for j := 0; j < ps.NumFields(); j++ {
+									if ps.Field(j).Name() == "Name" {
+										nameExpr = recv + ".procState.Name"
+									}
+								}
+							}
+						}
+					}
+				}
+			}
+		}
 		src := fmt.Sprintf("simsync.Hook(%q, %s, %s)", "state", nameExpr, par)
 		e, err := parseExpr(src)
 		if err != nil {
